@@ -347,6 +347,22 @@ def moved_link(M, rec, rng, g):
         rec.violation(f"{PROP}:moved link:numpy: the re-wired network cannot be stepped ({type(e).__name__})", {"exception": repr(e)[:300]})
 
 
+def networks_sharing_nodes(M, rec, rng, n_pairs):
+    """A whole network and a corridor made of the same objects, stepped alternately (vf.workloads.shared_object_networks):
+    each step equals the step of a twin built from fresh objects - the split at a junction follows the turn rates of the
+    links leaving it IN THE NETWORK THAT IS STEPPED."""
+    NE, CE = drive.engines(M)
+
+    def after_step(case, built, f):
+        got = drive.read_next(built)
+        f.net.step(init_conditions=drive.np_init(f, case["vals"], "vec1"), engine=NE(), **drive.step_pars(case["pars"]))
+        rec.count("relation_networks_sharing_nodes")
+        same(rec, f"a network sharing its nodes with another live network ({case['network']}) vs a twin of fresh objects", "numpy", case["desc"],
+             drive.read_next(f), got, {"desc": case["desc"], "vals": case["vals"], "pars": case["pars"]})
+
+    W.shared_object_networks(M, rec, rng, n_pairs, after_step=after_step)
+
+
 def state_dependent_turn_rates(M, rec, rng, g):
     """A user link kind whose turn rate is a property of its current state (route choice reacting to traffic):
     the share of the node's inflow a leaving link receives is its CURRENT turn rate over the sum of the current
@@ -407,6 +423,7 @@ def run(M, rec, tier, seed, k, n):
             moved_link(M, rec, rng, g)
         if it % 4 == 3:
             state_dependent_turn_rates(M, rec, rng, g)
+    networks_sharing_nodes(M, rec, rng, 40 if tier == "quick" else 400)
 
 
 def finish(M, rec, write=True):
